@@ -141,16 +141,22 @@ def step (side : Side) (MM cap : Nat) (ip : Vec K → Vec K → K) (sqrt : K →
 def cont (maxiter MM : Nat) (epsT : K) (t : In K) : Bool :=
   !(decide (maxiter ≤ t.iter) || decide (MM ≤ t.j) || !decide (epsT < t.innerRes))
 
-/-- lgmres.hpp:247-343: one restart cycle -/
-def cycle (prm : Params K) (ip : Vec K → Vec K → K) (sqrt : K → K) (A : CRS K) (P : Vec K → Vec K) (epsT : K)
-    (st : St K) : St K :=
+/-- lgmres.hpp:247-252: the state on entry of the inner loop -/
+def cycleStart (st : St K) : In K :=
   let w := st.w
   let v0 := axpby (inv1 st.normR) w.r 0 (w.vs 0)         -- backend::axpby(math::inverse(norm_r), *r, zero, *vs[0]);
-  let t0 : In K :=
-    { j := 0, iter := st.iter, innerRes := 0,
-      w := { w with h := { w.h with s := sInit st.normR },  -- std::fill(s.begin(), s.end(), 0); s[0] = norm_r;
-                    vs := setF w.vs 0 v0 } }
-  let t := doWhile (cont prm.maxiter prm.MM epsT) (step prm.pside prm.MM prm.K' ip sqrt A P) prm.MM t0
+  { j := 0, iter := st.iter, innerRes := 0,
+    w := { w with h := { w.h with s := sInit st.normR },  -- std::fill(s.begin(), s.end(), 0); s[0] = norm_r;
+                  vs := setF w.vs 0 v0 } }
+
+/-- lgmres.hpp:254-310: the inner `do … while`, fuel `M` (the member: `prm.M + prm.K`) -/
+def inner (prm : Params K) (ip : Vec K → Vec K → K) (sqrt : K → K) (A : CRS K) (P : Vec K → Vec K) (epsT : K)
+    (st : St K) : In K :=
+  doWhile (cont prm.maxiter prm.MM epsT) (step prm.pside prm.MM prm.K' ip sqrt A P) prm.MM (cycleStart st)
+
+/-- lgmres.hpp:312-343: back substitution, the update of `x`, the new augmentation vector -/
+def update (prm : Params K) (ip : Vec K → Vec K → K) (sqrt : K → K) (P : Vec K → Vec K) (st : St K) (t : In K) :
+    St K :=
   let s := backSubst t.j t.w.h.H t.w.h.s
   let w1 : Work K := { t.w with h := { t.w.h with s := s } }
   -- vector &dx = *r; backend::lin_comb(j, s, ws, zero, dx);
@@ -171,6 +177,11 @@ def cycle (prm : Params K) (ip : Vec K → Vec K → K) (sqrt : K → K) (A : CR
                      ov := w3.ov.push prm.K' slot } }        --   outer_v.push_back(outer_v_data[outer_slot]);
   else
     { iter := t.iter, nOuter := st.nOuter, normR := st.normR, x := xw.1, w := w3 }
+
+/-- lgmres.hpp:247-343: one restart cycle -/
+def cycle (prm : Params K) (ip : Vec K → Vec K → K) (sqrt : K → K) (A : CRS K) (P : Vec K → Vec K) (epsT : K)
+    (st : St K) : St K :=
+  update prm ip sqrt P st (inner prm ip sqrt A P epsT st)
 
 def outer (prm : Params K) (ip : Vec K → Vec K → K) (sqrt : K → K) (A : CRS K) (P : Vec K → Vec K) (f : Vec K)
     (epsT : K) : Nat → St K → St K :=
